@@ -546,6 +546,52 @@ pub fn gen(rng: &mut Rng, n: usize, out: &mut Vec<String>) {
               }
             }
         }
+        // directed: an account that is EXACTLY solvent in equity terms (a quarter of the worlds with two banks or more): a deposit and
+        // a debt worth five cents each, to the bit, in two banks priced at a fixed $1 with share values of one — and one bit to either
+        // side of it. The bankruptcy assessment must refuse the equal case (assets < liabilities is strict).
+        if specs.len() >= 2 && rng.chance(1, 4) {
+            let mut idx: Vec<usize> = (0..specs.len()).collect();
+            for i in (1..idx.len()).rev() { let j = rng.below(i as u64 + 1) as usize; idx.swap(i, j); }
+            let (c, d) = (specs[idx[0]].key, specs[idx[1]].key);
+            let mut ok = true;
+            for j in 0..2 {
+                let k = specs[idx[j]].key;
+                let mut b = w.bank(&k);
+                if b.mint_decimals < 2 || b.mint_decimals > 18 { ok = false; }
+                b.config.oracle_setup = OracleSetup::Fixed;
+                b.config.fixed_price = I80F48::from_bits(ONE).into();
+                b.config.risk_tier = RiskTier::Collateral;
+                b.config.operational_state = BankOperationalState::Operational;
+                b.asset_share_value = I80F48::from_bits(ONE).into();
+                b.liability_share_value = I80F48::from_bits(ONE).into();
+                if b.config.asset_tag == marginfi_type_crate::constants::ASSET_TAG_DRIFT { b.config.asset_tag = marginfi_type_crate::constants::ASSET_TAG_DEFAULT; }
+                w.set_bank(&k, &b);
+                specs[idx[j]].pyth = None;
+                specs[idx[j]].swb = None;
+                specs[idx[j]].oracle_meta = None;
+            }
+            if ok {
+                let five_cents = |dec: u8| -> i128 { (5i128 * 10i128.pow(dec as u32 - 2)) << 48 };
+                let (sa, sl) = (five_cents(w.bank(&c).mint_decimals), five_cents(w.bank(&d).mint_decimals));
+                for (da, dl) in [(0i128, 0i128), (-1, 0), (1, 0), (0, 1)] {
+                    let mut a = w.marginfi_account(&acct);
+                    for b in a.lending_account.balances.iter_mut() { *b = bytemuck::Zeroable::zeroed(); }
+                    let mut keys = [c, d];
+                    keys.sort_by(|x, y| y.cmp(x));
+                    for (slot, k) in keys.iter().enumerate() {
+                        let bal = &mut a.lending_account.balances[slot];
+                        bal.active = 1;
+                        bal.bank_pk = *k;
+                        if *k == c { bal.asset_shares = I80F48::from_bits(sa + da).into(); } else { bal.liability_shares = I80F48::from_bits(sl + dl).into(); }
+                    }
+                    w.set_marginfi_account(&acct, &a);
+                    let line = describe(&w, &acct, &specs);
+                    let o = pulse_line(&w, &acct, &specs);
+                    out.push(format!("risk.pulse {} => {}", line, o));
+                    produced += 1;
+                }
+            }
+        }
         for _ in 0..4 {
             // fresh positions on the same banks
             let mut a = w.marginfi_account(&acct);
